@@ -12,6 +12,8 @@ import (
 type GridRow struct {
 	Sep   bool
 	Cells []string
+	// Literal: a row with no cells that is attached as the zero value &tabular.Row{} (nil cell slice, not a separator)
+	Literal bool
 }
 
 type Grid struct {
@@ -58,6 +60,8 @@ func (g *Grid) Build(t tabular.Table) tabular.Table {
 	for _, r := range g.Rows {
 		if r.Sep {
 			t.AddSeparator()
+		} else if r.Literal {
+			t.AddRow(&tabular.Row{})
 		} else {
 			t.AddRowItems(strItems(r.Cells)...)
 		}
@@ -81,6 +85,8 @@ func (g *Grid) String() string {
 	for _, r := range g.Rows {
 		if r.Sep {
 			sb.WriteString(" | SEP")
+		} else if r.Literal {
+			sb.WriteString(" | &Row{}")
 		} else {
 			fmt.Fprintf(&sb, " | %q", r.Cells)
 		}
@@ -102,6 +108,8 @@ func (g *Grid) ShapeKey() string {
 	for _, r := range g.Rows {
 		if r.Sep {
 			sb.WriteString("|S")
+		} else if r.Literal {
+			sb.WriteString("|L")
 		} else {
 			fmt.Fprintf(&sb, "|%d", len(r.Cells))
 		}
@@ -200,11 +208,13 @@ func ChooseShape(c *Chooser, cfg ShapeCfg) *Grid {
 	for i := 0; i < nrows; i++ {
 		opts := cfg.MaxCells + 1
 		if cfg.Sep {
-			opts++
+			opts += 2
 		}
 		k := c.Choose(opts)
 		if k == cfg.MaxCells+1 {
 			g.Rows = append(g.Rows, GridRow{Sep: true})
+		} else if k == cfg.MaxCells+2 {
+			g.Rows = append(g.Rows, GridRow{Cells: []string{}, Literal: true})
 		} else {
 			g.Rows = append(g.Rows, GridRow{Cells: make([]string, k)})
 		}
